@@ -6,6 +6,7 @@ import (
 	"strings"
 
 	"verifharness/hx"
+	"verifharness/recdrv"
 )
 
 func init() {
@@ -94,6 +95,25 @@ func run(args []string) error {
 				return fmt.Errorf("%s drv %d: %v", op.Name, k, err)
 			}
 			emit(evs)
+		}
+		// a failing query (INSERT / UPDATE / DELETE ... RETURNING) may report its error only while the
+		// rows are read: the same fault positions, delivered late
+		qk := 0
+		for _, ev := range evs {
+			if ev["ev"] != "drv" {
+				continue
+			}
+			if k, _ := ev["k"].(string); recdrv.DefaultCounted(&recdrv.Event{K: k}) {
+				qk++
+				if k == "query" && op.Write {
+					caseNo++
+					evs2, _, _, _, err := e.RunTrace(caseNo, op, Fault{Mode: "drvlate", K: qk}, fmt.Sprintf("ctx-%s-%d", op.Name, caseNo), post)
+					if err != nil {
+						return fmt.Errorf("%s drvlate %d: %v", op.Name, qk, err)
+					}
+					emit(evs2)
+				}
+			}
 		}
 		for h := 1; h <= nhook; h++ {
 			caseNo++
